@@ -5,7 +5,7 @@
 From Coq Require Import List ZArith Bool Sorting.Sorted Sorting.Permutation.
 From GL Require Import Lib.Arr Lib.Keyed Lib.Blocks Model.Dom Model.Scalar Model.Reduce Model.GroupByApi
   Spec.Defs Spec.Exec Proofs.ReduceSeries Proofs.ReduceBlocks Proofs.ReduceWrap Proofs.ReduceSpec Proofs.ApiProofs
-  Proofs.GenTie Gen.ScalarFuncsGen.
+  Proofs.GenTie Gen.ScalarFuncsGen Model.Moments Proofs.ContainerProofs Proofs.MomentsProofs.
 Import ListNotations.
 Open Scope Z_scope.
 
@@ -97,3 +97,27 @@ Example C01_example :
   observed_flags false (snd (P fops Rnansum 3 rows)) (snd (P fops Rcount 3 rows)) = [true; true; true] /\
   reported [0; 1; 2]%nat [true; true; true] = [0; 1; 2]%nat.
 Proof. repeat split; vm_compute; reflexivity. Qed.
+
+(* 7. mean of datetime64 / timedelta64 values (tick counts): util.mean_from_sum_count divides the 64-bit sum by the
+      count in whole numbers.  When the exact sum of the group lies in the 64-bit range the result is the exact mean to
+      within one tick (floor), for any number of values and whatever the intermediate partial sums did; a group without
+      values gets null. *)
+Theorem C01_mean_of_ticks l :
+  l <> [] -> - 2 ^ 63 <= fold_left Z.add l 0 < 2 ^ 63 ->
+  exists m, group_mean_ticks l = Some m /\
+            Z.of_nat (length l) * m <= fold_left Z.add l 0 < Z.of_nat (length l) * (m + 1).
+Proof. exact (mean_ticks_exact l). Qed.
+Print Assumptions C01_mean_of_ticks.
+
+(* the side condition cannot be dropped: six present-day nanosecond timestamps already have a sum beyond 2^63 and the
+   64-bit accumulator then does NOT give their mean (KNOWN_FINDINGS.json K3; the witness is replayed on the
+   implementation by the temporal-mean stream of harness/props/c01.py) *)
+Theorem C01_mean_of_ticks_needs_the_sum_in_range_refuted :
+  exists l m, Forall in64 l /\ group_mean_ticks l = Some m /\
+              ~ (Z.of_nat (length l) * m <= fold_left Z.add l 0 < Z.of_nat (length l) * (m + 1)).
+Proof. exact mean_ticks_refuted. Qed.
+Print Assumptions C01_mean_of_ticks_needs_the_sum_in_range_refuted.
+
+Theorem C01_mean_formula_is_the_source's : Gen.TablesGen.gen_moment_formulas = moment_formulas.
+Proof. exact tie_moment_formulas. Qed.
+Print Assumptions C01_mean_formula_is_the_source's.
